@@ -2277,3 +2277,317 @@ Section Positions.
     apply from_gt_least. apply (L_sorted _ _ _ _ L s H).
   Qed.
 End Positions.
+
+(* ------------------------------------------------------------------------------------ *)
+(* Part 4b: the filtered iterator over a lawful iterator                                   *)
+(* ------------------------------------------------------------------------------------ *)
+
+Section FilteredLawful.
+  Context {S : Type} (I : Iter S) (ok : S -> Prop) (content rest : S -> list kv).
+  Context (L : Lawful I ok content rest).
+  Context (f : bytes -> bool).
+
+  Definition fk (x : kv) : bool := f (fst x).
+  Definition f_content (s : S) : list kv := filter fk (content s).
+  Definition f_rest (s : S) : list kv := if f_valid I f s then filter fk (rest s) else [].
+
+  (* skip the entries that do not pass *)
+  Fixpoint skipf (l : list kv) : list kv :=
+    match l with
+    | [] => []
+    | x :: r => if fk x then l else skipf r
+    end.
+
+  Lemma filter_skipf : forall l, filter fk (skipf l) = filter fk l.
+  Proof.
+    induction l as [|x r IH]; [reflexivity|]. cbn [skipf]. destruct (fk x) eqn:B; [reflexivity|].
+    cbn [filter]. rewrite B. exact IH.
+  Qed.
+
+  Lemma nonempty_skipf : forall l, nonempty (skipf l) = nonempty (filter fk l).
+  Proof.
+    induction l as [|x r IH]; [reflexivity|]. cbn [skipf filter]. destruct (fk x); [reflexivity|exact IH].
+  Qed.
+
+  Lemma skipf_head : forall l, match skipf l with x :: _ => fk x = true | [] => True end.
+  Proof.
+    induction l as [|x r IH]; [constructor|]. cbn [skipf]. destruct (fk x) eqn:B; [exact B|exact IH].
+  Qed.
+
+  Lemma ksorted_filter : forall l, ksorted l -> ksorted (filter fk l).
+  Proof.
+    intros l H. induction H as [|x r Hs IH Hf]; cbn [filter]; [constructor|].
+    destruct (fk x); [|exact IH]. constructor; [exact IH|].
+    rewrite Forall_forall in *. intros y Hy. apply filter_In in Hy. apply Hf. tauto.
+  Qed.
+
+  Lemma filter_from_ge : forall t l, ksorted l -> filter fk (from_ge t l) = from_ge t (filter fk l).
+  Proof.
+    intros t l. induction l as [|x r IH]; intros H; [reflexivity|]. cbn [from_ge filter].
+    destruct (blt (fst x) t) eqn:B.
+    - rewrite (IH (ksorted_tl _ _ H)). destruct (fk x); [cbn [from_ge]; rewrite B|]; reflexivity.
+    - cbn [filter]. destruct (fk x); [cbn [from_ge]; rewrite B; reflexivity|].
+      symmetry. apply from_ge_id; [apply ksorted_filter; eapply ksorted_tl; eauto|].
+      intros y Hy. apply filter_In in Hy. destruct Hy as [Hy _].
+      pose proof (ksorted_hd _ _ _ H Hy) as Le. eapply le_trans; eauto.
+  Qed.
+
+  Lemma f_valid_rest : forall s, ok s ->
+    f_valid I f s = match rest s with x :: _ => fk x | [] => false end.
+  Proof.
+    intros s H. unfold f_valid. destruct (rest s) as [|x r] eqn:R.
+    - rewrite (L_valid _ _ _ _ L s H), R. reflexivity.
+    - destruct (head_facts I ok content rest L s x r H R) as (V & K & _). rewrite V, K. reflexivity.
+  Qed.
+
+  Lemma f_rest_eq : forall s, ok s ->
+    (match rest s with x :: _ => fk x = true | [] => True end) -> f_rest s = filter fk (rest s).
+  Proof.
+    intros s H Hd. unfold f_rest. rewrite (f_valid_rest s H). destruct (rest s) as [|x r]; [reflexivity|].
+    rewrite Hd. reflexivity.
+  Qed.
+
+  Lemma f_valid_nonempty : forall s, ok s -> f_valid I f s = nonempty (f_rest s).
+  Proof.
+    intros s H. unfold f_rest. destruct (f_valid I f s) eqn:V; [|reflexivity].
+    rewrite (f_valid_rest s H) in V. destruct (rest s) as [|x r]; [discriminate|].
+    cbn [filter]. rewrite V. reflexivity.
+  Qed.
+
+  (* the loop of Next, started on a valid wrapped position *)
+  Lemma f_next_loop_spec : forall fuel s, ok s -> i_valid I s = true -> (length (rest s) <= fuel)%nat ->
+    ok (fst (f_next_loop I f fuel s)) /\ content (fst (f_next_loop I f fuel s)) = content s /\
+    rest (fst (f_next_loop I f fuel s)) = skipf (tl (rest s)) /\
+    snd (f_next_loop I f fuel s) = nonempty (skipf (tl (rest s))).
+  Proof.
+    induction fuel as [|n IH]; intros s H V Hf.
+    - rewrite (L_valid _ _ _ _ L s H) in V. destruct (rest s); [discriminate|cbn [length] in Hf; lia].
+    - cbn [f_next_loop]. destruct (L_next _ _ _ _ L s H V) as (N1 & N2 & N3 & N4).
+      destruct (i_next I s) as [s' ret]. cbn [fst snd] in *.
+      destruct (rest s) as [|x r] eqn:R; [rewrite (L_valid _ _ _ _ L s H), R in V; discriminate|].
+      cbn [tl] in *. destruct ret.
+      + destruct r as [|y r']; [discriminate|].
+        destruct (head_facts I ok content rest L s' y r' N1 N3) as (V' & K' & _). rewrite K'.
+        cbn [skipf]. unfold fk. destruct (f (fst y)) eqn:B; cbn [fst snd].
+        * repeat split; assumption.
+        * destruct (IH s' N1 V' ltac:(rewrite N3; cbn [length] in *; lia)) as (A1 & A2 & A3 & A4).
+          rewrite N3 in A3, A4. cbn [tl] in A3, A4. split; [exact A1|]. split; [congruence|]. split; assumption.
+      + destruct r; [|discriminate]. cbn [fst snd skipf]. repeat split; assumption.
+  Qed.
+
+  Lemma f_next_spec : forall s, ok s -> i_valid I s = true ->
+    ok (fst (f_next I f s)) /\ content (fst (f_next I f s)) = content s /\
+    rest (fst (f_next I f s)) = skipf (tl (rest s)) /\
+    snd (f_next I f s) = nonempty (skipf (tl (rest s))).
+  Proof.
+    intros s H V. apply f_next_loop_spec; [exact H|exact V|].
+    pose proof (rest_length _ _ _ _ _ L s H). lia.
+  Qed.
+
+  (* after the loop the filtered view is what passes of the skipped-to position *)
+  Lemma f_rest_after_next : forall s, ok s -> i_valid I s = true ->
+    f_rest (fst (f_next I f s)) = filter fk (tl (rest s)).
+  Proof.
+    intros s H V. destruct (f_next_spec s H V) as (A1 & _ & A3 & _).
+    rewrite (f_rest_eq _ A1) by (rewrite A3; apply skipf_head). rewrite A3. apply filter_skipf.
+  Qed.
+
+  (* the keys the backward search of SeekToLast remembers *)
+  Fixpoint walkf (l : list kv) (lastk : option bytes) : option bytes :=
+    match l with
+    | [] => lastk
+    | x :: r => walkf r (if fk x then Some (fst x) else lastk)
+    end.
+
+  Lemma f_walk_spec : forall fuel s lastk, ok s -> (length (rest s) < fuel)%nat ->
+    ok (fst (f_walk I f fuel s lastk)) /\ content (fst (f_walk I f fuel s lastk)) = content s /\
+    snd (f_walk I f fuel s lastk) = walkf (rest s) lastk.
+  Proof.
+    induction fuel as [|n IH]; intros s lastk H Hf; [lia|]. cbn [f_walk].
+    destruct (rest s) as [|x r] eqn:R.
+    - rewrite (L_valid _ _ _ _ L s H), R. cbn [nonempty fst snd walkf]. auto.
+    - destruct (head_facts I ok content rest L s x r H R) as (V & K & _). rewrite V, K.
+      destruct (L_next _ _ _ _ L s H V) as (N1 & N2 & N3 & _). rewrite R in N3. cbn [tl] in N3.
+      destruct (IH (fst (i_next I s)) (if f (fst x) then Some (fst x) else lastk) N1
+                  ltac:(rewrite N3; cbn [length] in Hf; lia)) as (A1 & A2 & A3).
+      rewrite N3 in A3. split; [exact A1|]. split; [congruence|]. exact A3.
+  Qed.
+
+  Lemma walkf_some : forall l lastk k, walkf l lastk = Some k ->
+    (lastk = Some k /\ filter fk l = []) \/
+    (exists pre x post, l = pre ++ x :: post /\ fk x = true /\ fst x = k /\ filter fk post = []).
+  Proof.
+    induction l as [|x r IH]; intros lastk k E; cbn [walkf] in E; [left; split; [exact E|reflexivity]|].
+    destruct (IH _ _ E) as [[Q F]|(pre & y & post & -> & By & Ey & F)].
+    - destruct (fk x) eqn:B.
+      + injection Q as <-. right. exists [], x, r. repeat split; assumption.
+      + left. split; [exact Q|]. cbn [filter]. rewrite B. exact F.
+    - right. exists (x :: pre), y, post. repeat split; assumption.
+  Qed.
+
+  Lemma walkf_from_some : forall l k, walkf l (Some k) <> None.
+  Proof.
+    induction l as [|x r IH]; intros k; cbn [walkf]; [discriminate|]. destruct (fk x); apply IH.
+  Qed.
+
+  Lemma walkf_none : forall l, walkf l None = None -> filter fk l = [].
+  Proof.
+    induction l as [|x r IH]; intros E; [reflexivity|]. cbn [walkf] in E. cbn [filter].
+    destruct (fk x) eqn:B; [|apply IH; exact E]. exfalso. exact (walkf_from_some r _ E).
+  Qed.
+
+  Lemma last_run_filter : forall c pre x post, ksorted c -> c = pre ++ x :: post -> fk x = true ->
+    filter fk post = [] -> last_run (filter fk c) = filter fk (from_ge (fst x) c).
+  Proof.
+    intros c pre x post Hs -> Bx Fp. rewrite (filter_from_ge (fst x) _ Hs).
+    rewrite filter_app. cbn [filter]. rewrite Bx, Fp. unfold last_run.
+    rewrite (last_suffix_snoc (filter fk pre) x). reflexivity.
+  Qed.
+
+  Lemma filter_length_le : forall l, (length (filter fk l) <= length l)%nat.
+  Proof. induction l as [|x r IH]; cbn [filter length]; [lia|]. destruct (fk x); cbn [length]; lia. Qed.
+
+  (* the head of from_ge k c has key k when c has an entry of key k *)
+  Lemma from_ge_head_key : forall k c x, ksorted c -> In x c -> fst x = k ->
+    exists y r, from_ge k c = y :: r /\ fst y = k.
+  Proof.
+    intros k c x Hs Hx Ex.
+    assert (Hin : In x (from_ge k c)) by (apply from_ge_in; [exact Hs|split; [exact Hx|rewrite Ex; apply blt_irrefl]]).
+    destruct (from_ge k c) as [|y r] eqn:G; [destruct Hin|]. exists y, r. split; [reflexivity|].
+    pose proof (from_ge_all k c Hs) as F. rewrite G in F. pose proof (Forall_inv F) as By. cbn beta in By.
+    apply le_antisym; [exact By|].
+    destruct Hin as [<-|Hin]; [rewrite Ex; apply blt_irrefl|].
+    pose proof (from_ge_ksorted k c Hs) as Hg. rewrite G in Hg.
+    pose proof (ksorted_hd y r x Hg Hin) as Le. rewrite Ex in Le. exact Le.
+  Qed.
+
+  Theorem filtered_lawful : Lawful (filtered_iter I f) ok f_content f_rest.
+  Proof.
+    constructor; cbn [filtered_iter i_first i_seek i_next i_last i_valid i_key i_value i_tomb i_fuel].
+    - intros s H. apply ksorted_filter. apply (L_sorted _ _ _ _ L s H).
+    - intros s H. unfold f_rest, f_content. destruct (L_suffix _ _ _ _ L s H) as (pre & E).
+      destruct (f_valid I f s).
+      + exists (filter fk pre). rewrite E at 1. apply filter_app.
+      + exists (filter fk (content s)). symmetry. apply app_nil_r.
+    - intros s H. pose proof (L_fuel _ _ _ _ L s H). pose proof (filter_length_le (content s)).
+      unfold f_content. lia.
+    - apply f_valid_nonempty.
+    - intros s H V. unfold f_rest. rewrite V. rewrite (f_valid_rest s H) in V.
+      destruct (rest s) as [|x r] eqn:R; [discriminate|].
+      destruct (head_facts I ok content rest L s x r H R) as (_ & K & _). cbn [filter]. rewrite V. exact K.
+    - intros s H V. unfold f_rest. rewrite V. rewrite (f_valid_rest s H) in V.
+      destruct (rest s) as [|x r] eqn:R; [discriminate|].
+      destruct (head_facts I ok content rest L s x r H R) as (_ & _ & W & _). cbn [filter]. rewrite V. exact W.
+    - intros s H V. unfold f_rest. rewrite V. rewrite (f_valid_rest s H) in V.
+      destruct (rest s) as [|x r] eqn:R; [discriminate|].
+      destruct (head_facts I ok content rest L s x r H R) as (_ & _ & _ & T). cbn [filter]. rewrite V. exact T.
+    - (* SeekToFirst *)
+      intros s H. unfold f_first. destruct (L_first _ _ _ _ L s H) as (A1 & A2 & A3).
+      set (s1 := i_first I s) in *. unfold f_content.
+      destruct (i_valid I s1 && negb (f (i_key I s1))) eqn:C.
+      + apply andb_true_iff in C. destruct C as [V Nf]. apply negb_true_iff in Nf.
+        destruct (f_next_spec s1 A1 V) as (B1 & B2 & _). split; [exact B1|]. split; [congruence|].
+        rewrite (f_rest_after_next s1 A1 V), A3.
+        destruct (content s) as [|x r] eqn:Cs; [reflexivity|].
+        destruct (head_facts I ok content rest L s1 x r A1 A3) as (_ & K & _). rewrite K in Nf.
+        cbn [tl filter]. unfold fk at 2. rewrite Nf. reflexivity.
+      + split; [exact A1|]. split; [rewrite A2; reflexivity|]. rewrite <- A3.
+        apply f_rest_eq; [exact A1|]. destruct (rest s1) as [|x r] eqn:R; [constructor|].
+        destruct (head_facts I ok content rest L s1 x r A1 R) as (V & K & _). rewrite V, K in C.
+        cbn [andb] in C. apply negb_false_iff in C. exact C.
+    - (* Next *)
+      intros s H V. pose proof V as Vr. rewrite (f_valid_rest s H) in Vr.
+      destruct (rest s) as [|x r] eqn:R; [discriminate|].
+      destruct (head_facts I ok content rest L s x r H R) as (Vi & _).
+      destruct (f_next_spec s H Vi) as (B1 & B2 & B3 & B4). rewrite R in B3, B4. cbn [tl] in B3, B4.
+      pose proof (f_rest_after_next s H Vi) as Fr. rewrite R in Fr. cbn [tl] in Fr.
+      assert (Ht : tl (f_rest s) = filter fk r).
+      { unfold f_rest. rewrite V, R. cbn [filter]. rewrite Vr. reflexivity. }
+      split; [exact B1|]. split; [unfold f_content; rewrite B2; reflexivity|]. split; [congruence|].
+      rewrite B4, Ht. apply nonempty_skipf.
+    - (* Seek *)
+      intros t s H. unfold f_seek. destruct (L_seek _ _ _ _ L t s H) as (A1 & A2 & A3).
+      pose proof (L_sorted _ _ _ _ L s H) as Hs.
+      destruct (i_seek I t s) as [s1 ret]. cbn [fst snd] in *.
+      assert (Hc : f_content s1 = f_content s) by (unfold f_content; rewrite A2; reflexivity).
+      destruct A3 as [[E Er]|(E1 & E2 & Er)].
+      + subst ret. destruct (from_ge t (content s)) as [|y r] eqn:G; cbn [nonempty].
+        * cbn [fst snd]. split; [exact A1|]. split; [exact Hc|]. left.
+          unfold f_content. rewrite <- (filter_from_ge t _ Hs), G. cbn [filter nonempty].
+          split; [|reflexivity]. unfold f_rest. rewrite (f_valid_rest s1 A1), E. reflexivity.
+        * destruct (head_facts I ok content rest L s1 y r A1 E) as (V & K & _). rewrite K.
+          unfold f_content. rewrite <- (filter_from_ge t _ Hs), G.
+          destruct (f (fst y)) eqn:B; cbn [fst snd].
+          -- split; [exact A1|]. split; [exact Hc|]. left.
+             rewrite (f_rest_eq s1 A1) by (rewrite E; exact B). rewrite E. split; [reflexivity|].
+             cbn [filter]. unfold fk at 1. rewrite B. reflexivity.
+          -- destruct (f_next_spec s1 A1 V) as (B1 & B2 & B3 & B4). rewrite E in B3, B4. cbn [tl] in B3, B4.
+             pose proof (f_rest_after_next s1 A1 V) as Fr. rewrite E in Fr. cbn [tl] in Fr.
+             split; [exact B1|]. split; [unfold f_content; rewrite B2, A2; reflexivity|]. left.
+             assert (Ff : filter fk (y :: r) = filter fk r) by (cbn [filter]; unfold fk at 1; rewrite B; reflexivity).
+             rewrite Ff. split; [exact Fr|]. rewrite B4. apply nonempty_skipf.
+      + subst ret. cbn [fst snd]. split; [exact A1|]. split; [exact Hc|]. right.
+        split; [unfold f_content; rewrite <- (filter_from_ge t _ Hs), E1; reflexivity|].
+        split; [|reflexivity]. unfold f_rest. rewrite (f_valid_rest s1 A1), (f_valid_rest s H), E2. reflexivity.
+    - (* SeekToLast *)
+      intros s H. unfold f_last. destruct (L_last _ _ _ _ L s H) as (A1 & A2 & A3).
+      pose proof (L_sorted _ _ _ _ L s H) as Hs.
+      set (s1 := i_last I s) in *.
+      destruct (i_valid I s1 && negb (f (i_key I s1))) eqn:C.
+      + (* the last key does not pass: search from the first key for the last one that does *)
+        destruct (L_first _ _ _ _ L s1 A1) as (F1 & F2 & F3). rewrite A2 in F2, F3.
+        set (s2 := i_first I s1) in *.
+        pose proof (f_walk_spec (i_fuel I s2) s2 None F1 (rest_length _ _ _ _ _ L _ F1)) as (W1 & W2 & W3).
+        destruct (f_walk I f (i_fuel I s2) s2 None) as [s3 lastk]. cbn [fst snd] in *.
+        rewrite F3 in W3. rewrite F2 in W2. subst lastk.
+        destruct (walkf (content s) None) as [k|] eqn:Wk.
+        * destruct (walkf_some _ _ _ Wk) as [[Q _]|(pre & x & post & Ec & Bx & Ex & Fp)]; [discriminate|].
+          assert (Hx : In x (content s)) by (rewrite Ec; apply in_or_app; right; left; reflexivity).
+          destruct (from_ge_head_key k (content s) x Hs Hx Ex) as (y & r & G & Ey).
+          destruct (L_seek _ _ _ _ L k s3 W1) as (B1 & B2 & B3). rewrite W2 in B2, B3.
+          assert (E : rest (fst (i_seek I k s3)) = from_ge k (content s)).
+          { destruct B3 as [[E _]|(E1 & _)]; [exact E|]. rewrite G in E1. discriminate. }
+          split; [exact B1|]. split; [unfold f_content; rewrite B2; reflexivity|].
+          rewrite (f_rest_eq _ B1) by (rewrite E, G; unfold fk; rewrite Ey, <- Ex; exact Bx).
+          rewrite E. unfold f_content. rewrite (last_run_filter _ pre x post Hs Ec Bx Fp), Ex. reflexivity.
+        * pose proof (walkf_none _ Wk) as Fn.
+          destruct (L_first _ _ _ _ L s3 W1) as (G1 & G2 & G3). rewrite W2 in G2, G3.
+          split; [exact G1|]. split; [unfold f_content; rewrite G2; reflexivity|].
+          unfold f_content. rewrite Fn. cbn [last_run last_suffix].
+          unfold f_rest. rewrite (f_valid_rest _ G1), G3.
+          destruct (content s) as [|x r]; [reflexivity|]. cbn [filter] in Fn.
+          destruct (fk x); [discriminate|reflexivity].
+      + split; [exact A1|]. split; [unfold f_content; rewrite A2; reflexivity|].
+        assert (Hd : match rest s1 with x :: _ => fk x = true | [] => True end).
+        { destruct (rest s1) as [|x r] eqn:R; [constructor|].
+          destruct (head_facts I ok content rest L s1 x r A1 R) as (V & K & _). rewrite V, K in C.
+          cbn [andb] in C. apply negb_false_iff in C. exact C. }
+        rewrite (f_rest_eq s1 A1 Hd), A3. unfold f_content.
+        destruct (last_suffix_cases (content s)) as [[Ec El]|(pre & x & Ec & El)].
+        * rewrite Ec. reflexivity.
+        * rewrite A3 in Hd. unfold last_run in Hd |- *. rewrite El in Hd |- *.
+          destruct (from_ge_head_key (fst x) (content s) x Hs
+                      ltac:(rewrite Ec; apply in_or_app; right; left; reflexivity) eq_refl) as (y & r & G & Ey).
+          rewrite G in Hd. unfold fk in Hd. rewrite Ey in Hd.
+          fold (last_run (filter fk (content s))).
+          rewrite (last_run_filter (content s) pre x [] Hs Ec Hd eq_refl). reflexivity.
+  Qed.
+
+  Theorem filtered_exact : ExactSeek I ok content rest -> ExactSeek (filtered_iter I f) ok f_content f_rest.
+  Proof.
+    intros X t s H. destruct (L_seek _ _ _ _ (filtered_lawful) t s H) as (_ & _ & [A|(E1 & E2 & E3)]); [exact A|].
+    (* the wrapped iterator repositioned, so the weak case coincides with the exact one *)
+    cbn [filtered_iter i_seek] in *. unfold f_seek in *. destruct (X t s H) as (Xr & Xs).
+    destruct (L_seek _ _ _ _ L t s H) as (A1 & _ & _).
+    pose proof (L_sorted _ _ _ _ L s H) as Hs.
+    destruct (i_seek I t s) as [s1 ret]. cbn [fst snd] in *. subst ret.
+    assert (Ef : filter fk (from_ge t (content s)) = []).
+    { unfold f_content in E1. rewrite <- (filter_from_ge t _ Hs) in E1. exact E1. }
+    rewrite E1. destruct (from_ge t (content s)) as [|y r] eqn:G; cbn [nonempty] in *.
+    - cbn [fst snd]. split; [|reflexivity]. unfold f_rest. rewrite (f_valid_rest s1 A1), Xr. reflexivity.
+    - destruct (head_facts I ok content rest L s1 y r A1 Xr) as (V & K & _). rewrite K in *.
+      destruct (f (fst y)) eqn:B; [cbn [snd] in E3; discriminate|].
+      split; [|exact E3]. rewrite (f_rest_after_next s1 A1 V), Xr. cbn [tl].
+      cbn [filter] in Ef. unfold fk at 1 in Ef. rewrite B in Ef. exact Ef.
+  Qed.
+End FilteredLawful.
